@@ -218,6 +218,35 @@ fn sink_main<S: WriteAll + Read>(env: &mut Env<S>, args: Vec<Field>) -> BFut<'_>
     })
 }
 
+/// `tally [BUF]` - reads stdin to EOF and prints the order-insensitive summary
+/// `len=<n> sum=<sum of bytes> sq=<sum of squared bytes>`.
+fn tally_main<S: WriteAll + Read>(env: &mut Env<S>, args: Vec<Field>) -> BFut<'_> {
+    Box::pin(async move {
+        let b: usize = args.first().and_then(|f| f.value.parse().ok()).unwrap_or(300).max(1);
+        let mut buf = vec![0u8; b];
+        let (mut len, mut sum, mut sq) = (0u64, 0u64, 0u64);
+        loop {
+            match read_some(env, &mut buf).await {
+                Ok(0) => break,
+                Ok(n) => {
+                    for x in &buf[..n] {
+                        len += 1;
+                        sum += *x as u64;
+                        sq += (*x as u64) * (*x as u64);
+                    }
+                }
+                Err(e) => {
+                    let msg = format!("tally: read error {e}\n");
+                    write_out(env, Fd::STDOUT, msg.as_bytes()).await;
+                    return BResult::new(ExitStatus::FAILURE);
+                }
+            }
+        }
+        let msg = format!("len={len} sum={sum} sq={sq}\n");
+        BResult::new(write_out(env, Fd::STDOUT, msg.as_bytes()).await)
+    })
+}
+
 /// `strhash STRING` - prints `len=<bytes> hash=<fnv>` of its argument.
 fn strhash_main<S: WriteAll>(env: &mut Env<S>, args: Vec<Field>) -> BFut<'_> {
     Box::pin(async move {
@@ -388,6 +417,7 @@ where
         ("selfkill", Builtin::new(Type::Mandatory, selfkill_main)),
         ("recs", Builtin::new(Type::Mandatory, recs_main)),
         ("recsink", Builtin::new(Type::Mandatory, recsink_main)),
+        ("tally", Builtin::new(Type::Mandatory, tally_main)),
         ("cat", Builtin::new(Type::Mandatory, cat_main)),
         ("catfd", Builtin::new(Type::Mandatory, catfd_main)),
         ("echo", Builtin::new(Type::Mandatory, echo_main)),
